@@ -1,0 +1,102 @@
+//go:build verif
+
+package crl
+
+// Machine-checked contracts for package revocation/crl (checked by /verif/govc; comment-only file).
+// Properties C18, C06.
+
+//@ import "crypto/x509"
+//@ import "crypto/x509/pkix"
+//@ import "net/url"
+//@ import "errors"
+//@ import "time"
+//@ import "github.com/notaryproject/notation-core-go/revocation/internal/x509util"
+
+// stmt C18: "still within their next-update time"; "an expired or next-update-less cached bundle is never returned"
+//@ stmt spec func Effective(l *x509.RevocationList) bool { !l.NextUpdate.IsZero() && !time.Now().After(l.NextUpdate) }
+// stmt C18: "freshly downloaded over plain HTTP"
+//@ stmt spec func IsPlainHTTP(u string) bool { url.Parse(u).err == nil && url.Parse(u).result0.Scheme == "http" }
+// stmt C18: "the base CRL advertises a freshest-CRL location"
+//@ stmt spec func AdvertisesDelta(base *x509.RevocationList) bool { x509util.FindExtensionByOID$(base.Extensions, oidFreshestCRL) != nil }
+//@ spec func ListShape(l *x509.RevocationList) bool { forall k :: 0 <= k && k < len(l.RevokedCertificateEntries) ==> elemptr(l.RevokedCertificateEntries, k).SerialNumber != nil }
+//@ spec func BundleShape(b *Bundle) bool { b.BaseCRL != nil && ListShape(b.BaseCRL) && (b.DeltaCRL != nil ==> ListShape(b.DeltaCRL)) }
+//@ spec func IsMiss(e error) bool { errors.Is(e, ErrCacheMiss) }
+//@ spec func IsNotFound(e error) bool { errors.Is(e, errDeltaCRLNotFound) }
+
+// Contracts every crl.Cache is assumed to meet (caller-supplied component): a hit returns a well-shaped bundle.
+//@ interface func (Cache).Get(c, ctx, url)
+//@   logged
+//@   maypanic
+//@   ensures err == nil ==> result != nil && BundleShape(result) && !fresh(result)
+//@ interface func (Cache).Set(c, ctx, url, bundle)
+//@   logged
+//@   maypanic
+
+//@ func NewHTTPFetcher(httpClient)
+//@   ensures [nil] httpClient == nil <==> err != nil
+//@   ensures [ok] err == nil ==> result != nil && fresh(result) && result.httpClient == httpClient && result.Cache == nil && !result.DiscardCacheError
+//@   ensures [err] err != nil ==> result == nil
+
+//@ func isEffective(crl)
+//@   requires crl != nil
+//@   ensures [def] result <==> Effective(crl)
+//@   pure
+
+// one HTTP GET over plain http; the four failure tests (scheme, status, size, parse) and transport faults are errors;
+// a failure is never reported as "delta CRL not found"
+//@ func fetchCRL(ctx, crlURL, client)
+//@   requires client != nil
+//@   calls Client.Do
+//@   maypanic
+//@   ensures [ok] err == nil ==> result != nil && fresh(result) && ListShape(result) && IsPlainHTTP(crlURL) && ncalls(Client.Do) == old(ncalls(Client.Do)) + 1
+//@   ensures [err] err != nil ==> result == nil && !IsNotFound(err)
+//@   ensures [not-http=>no-request] !IsPlainHTTP(crlURL) ==> err != nil && ncalls(Client.Do) == old(ncalls(Client.Do))
+//@   ensures [one-exchange] ncalls(Client.Do) <= old(ncalls(Client.Do)) + 1
+
+// safety and termination only: DER structure is not modelled
+//@ func parseCRLDistributionPoint(value)
+//@   ensures [err] err != nil ==> len(result) == 0 && ExternalDyn(typeof(err)) && !IsNotFound(err)
+//@   loop 0
+//@     invariant true
+//@     decreases len(val)
+//@   loop 1
+//@     invariant true
+//@     decreases len(dpNameDER)
+
+// stmt C18: "taken from the first advertised location that answers"; "a base CRL whose advertised delta cannot be
+// obtained or parsed yields an error": "not found" is reported only when no download was attempted
+//@ func (*HTTPFetcher).fetchDeltaCRL(f, ctx, extensions)
+//@   requires f != nil && f.httpClient != nil
+//@   calls Client.Do
+//@   maypanic
+//@   ensures [not-advertised] x509util.FindExtensionByOID$(extensions, oidFreshestCRL) == nil ==> result == nil && err == errDeltaCRLNotFound && ncalls(Client.Do) == old(ncalls(Client.Do))
+//@   ensures [ok] err == nil ==> result != nil && fresh(result) && ListShape(result) && x509util.FindExtensionByOID$(extensions, oidFreshestCRL) != nil && ncalls(Client.Do) >= old(ncalls(Client.Do)) + 1
+//@   ensures [err] err != nil ==> result == nil
+//@   ensures [not-found=>nothing-attempted] (err != nil && IsNotFound(err)) ==> ncalls(Client.Do) == old(ncalls(Client.Do))
+//@   loop 0
+//@     invariant f != nil && f.httpClient != nil
+//@     invariant it == 0 ==> ncalls(Client.Do) == old(ncalls(Client.Do))
+//@     invariant it > 0 ==> lastError != nil && !IsNotFound(lastError)
+
+//@ func (*HTTPFetcher).fetch(f, ctx, url)
+//@   requires f != nil && f.httpClient != nil
+//@   calls Client.Do
+//@   maypanic
+//@   ensures [ok] err == nil ==> result != nil && fresh(result) && BundleShape(result) && IsPlainHTTP(url) && ncalls(Client.Do) >= old(ncalls(Client.Do)) + 1
+//@   ensures [delta=>advertised] (err == nil && result.DeltaCRL != nil) ==> AdvertisesDelta(result.BaseCRL)
+//@   ensures [no-delta=>nothing-attempted] (err == nil && result.DeltaCRL == nil) ==> ncalls(Client.Do) == old(ncalls(Client.Do)) + 1
+//@   ensures [err] err != nil ==> result == nil
+
+// stmt C18 (whole statement)
+//@ func (*HTTPFetcher).Fetch(f, ctx, url)
+//@   props C18 C06
+//@   requires f != nil && f.httpClient != nil
+//@   calls Client.Do, Cache.Get, Cache.Set
+//@   maypanic
+//@   ensures [refines-Fetcher] err == nil ==> result != nil && BundleShape(result)
+//@   ensures [err] err != nil ==> result == nil
+//@   ensures [cached=>effective] (err == nil && !fresh(result)) ==> f.Cache != nil && called(Cache.Get) && lastret(Cache.Get, 0) == result && lastret(Cache.Get, 1) == nil && Effective(result.BaseCRL) && (result.DeltaCRL == nil || Effective(result.DeltaCRL)) && ncalls(Client.Do) == old(ncalls(Client.Do)) && ncalls(Cache.Set) == old(ncalls(Cache.Set))
+//@   ensures [fresh=>downloaded-and-stored] (err == nil && fresh(result)) ==> IsPlainHTTP(url) && ncalls(Client.Do) >= old(ncalls(Client.Do)) + 1 && (result.DeltaCRL != nil ==> AdvertisesDelta(result.BaseCRL)) && (f.Cache != nil ==> called(Cache.Set) && lastarg(Cache.Set, 2) == url && lastarg(Cache.Set, 3) == result && ncalls(Cache.Set) == old(ncalls(Cache.Set)) + 1 && (lastret(Cache.Set, 0) == nil || f.DiscardCacheError))
+//@   ensures [cache-read-failure] (f.Cache != nil && url != "" && called(Cache.Get) && lastret(Cache.Get, 1) != nil && !IsMiss(lastret(Cache.Get, 1)) && !f.DiscardCacheError) ==> err != nil && ncalls(Client.Do) == old(ncalls(Client.Do))
+//@   ensures [miss-is-not-an-error] (err != nil && called(Cache.Get) && lastret(Cache.Get, 1) != nil && IsMiss(lastret(Cache.Get, 1))) ==> ncalls(Client.Do) >= old(ncalls(Client.Do)) || !IsPlainHTTP(url)
+//@   ensures [empty-url] url == "" ==> err != nil && ncalls(Client.Do) == old(ncalls(Client.Do)) && ncalls(Cache.Get) == old(ncalls(Cache.Get))
